@@ -15,7 +15,7 @@
  *                                                                     tail = number of further singular values that are not numerically zero
  *   Extract{k,eval,resid,ortho,proj,recon,rorth,dmodx,it}             after component k (it = NIPALS iterations, informative)
  *   Finish{varexp[]}                                                  explained variances / 100
- *   Project{err}                                                      PCAScorePredictor(training matrix) vs training scores
+ *   Project{err,gr}                                                   PCAScorePredictor(training matrix) vs training scores; gr: GetResidualMatrix vs E0 - T P' (|E0| units)
  *   Back{err,repr}                                                    PCAIndVarPredictor vs X - scale*residual, in units of |E0|; repr = one ulp of X in the same units
  *   Abort{rc,why}                                                     child died / iteration budget / watchdog
  *   Dropped{why}                                                      generated input outside the quantifier (not judged)
@@ -211,7 +211,25 @@ static int child(void *arg)
       ld d = 0, t2 = 0; for(int i = 0; i < n; i++){ ld e = (ld)ps->data[i][k] - m->scores->data[i][k]; d += e * e; t2 += (ld)m->scores->data[i][k] * m->scores->data[i][k]; }
       double e = (t2 > 0) ? sqrt((double)(d / t2)) : 1.0; if(!(e <= worst)) worst = e;
     }
-    VRT_EMIT("{\"e\":\"Project\",\"err\":%ld}", vq12(worst));
+    /* GetResidualMatrix(training matrix, model, a) = preprocessed data - T_a P_a' for a = npc and a = 1, written into an
+       already sized, non-zero output; compared with the harness's own direct residual in units of |E0| */
+    double gr = 0;
+    for(int pass = 0; pass < 2; pass++){
+      int a = pass == 0 ? npc : 1;
+      matrix *rm; NewMatrix(&rm, 2, 3); for(int i = 0; i < 2; i++) for(int j = 0; j < 3; j++) rm->data[i][j] = 777.0;
+      GetResidualMatrix(x, m, (size_t)a, rm);
+      if((int)rm->row != n || (int)rm->col != c) gr = 1.0;
+      else{
+        ld d2 = 0;
+        for(int i = 0; i < n; i++) for(int j = 0; j < c; j++){
+          ld v = E0->data[i][j]; for(int q = 0; q < a; q++) v -= (ld)m->scores->data[i][q] * m->loadings->data[j][q];
+          ld e = v - rm->data[i][j]; d2 += e * e;
+        }
+        double e = sqrt((double)(d2 / ss0)); if(!(e <= gr)) gr = e;
+      }
+      DelMatrix(&rm);
+    }
+    VRT_EMIT("{\"e\":\"Project\",\"err\":%ld,\"gr\":%ld}", vq12(worst), vq12(gr));
     DelMatrix(&ps);
   }
   /* back-transformation: (X - back)/scale = E0 - T P'  (= 0 when all components are taken), in units of |E0| */
